@@ -21,6 +21,78 @@ pub fn from_impls(m: &Model) -> Vec<&FnInfo> {
         .collect()
 }
 
+/// format_member_or_option assembles the `#[rasn(..)]` attribute of every SEQUENCE / SET component and CHOICE alternative
+/// from what its callers hand it (the extension marking, the DEFAULT annotation) and what it computes itself (tag, range,
+/// alphabet). It is evaluated whole for components of every kind of type; `item` names the ingredient the calling property
+/// is about ("extension", "tag", "default"): it must be among the annotations that reach join_annotations, whatever the
+/// kind of the component's type — a branch that rebuilds the list for one kind (character strings have one) loses it there.
+pub fn member_annotations(m: &Model, ctx: &mut Ctx, rule: &str, item: &str) {
+    let Some(f) = anchor_fn(m, ctx, rule, Some("Rasn"), "format_member_or_option", None) else { return };
+    let consts = const_resolver(m);
+    let okv = |v: Val| Val::Ctor("Ok".into(), vec![v], BTreeMap::new());
+    let hook = |_: &Evaluator, name: &str, a: &[Val]| -> Option<Result<Val, String>> {
+        let field = |k: &str| match a.first() { Some(Val::Ctor(_, _, f)) => f.get(k).cloned(), _ => None };
+        let show = |v: &Val| match v { Val::Sym(s) | Val::Str(s) => s.clone(), o => o.show() };
+        match name {
+            ".ty" | ".name" | ".is_recursive" | ".constraints" | ".tag" if a.len() == 1 => field(&name[1..]).map(Ok),
+            ".constraints_and_type_name" => Some(Ok(okv(Val::Tuple(vec![Val::List(vec![]), Val::Sym("TYPE".into())])))),
+            "Self::needs_unnesting" | "Rasn::needs_unnesting" => Some(Ok(Val::Bool(matches!(a.first(), Some(Val::Ctor(k, _, _)) if ["Sequence", "Set", "Choice", "Enumerated"].contains(&k.as_str()))))),
+            ".inner_name" => Some(Ok(Val::Sym("INNER".into()))),
+            ".format_range_annotations" => Some(Ok(okv(Val::Sym("<RANGE>".into())))),
+            ".format_alphabet_annotations" => Some(Ok(okv(Val::Sym("<ALPHABET>".into())))),
+            ".format_tag" => Some(Ok(Val::Sym("<TAG>".into()))),
+            ".format_identifier_annotation" => Some(Ok(Val::Sym("<IDENTIFIER>".into()))),
+            ".join_annotations" => Some(Ok(okv(Val::Sym(match a.get(1) { Some(Val::List(l)) => l.iter().map(show).collect::<Vec<_>>().join(" "), o => format!("?{}", o.map(|v| v.show()).unwrap_or_default()) })))),
+            ".to_token_stream" | ".to_owned" | ".clone" if a.len() == 1 => Some(Ok(a[0].clone())),
+            ".to_string" if a.len() == 1 => Some(Ok(match &a[0] { Val::Sym(s) => Val::Str(s.clone()), o => o.clone() })),
+            "boxed_type" => Some(Ok(a.first().cloned().unwrap_or(Val::Unit))),
+            _ => None,
+        }
+    };
+    let ev = Evaluator { consts: &consts, call_hook: &hook, inline: None };
+    let params: Vec<String> = f.sig.inputs.iter().filter_map(|a| match a { syn::FnArg::Typed(t) => Some(tok(&t.pat)), _ => None }).collect();
+    if params.len() < 5 {
+        ctx.fail_closed(rule, "format_member_or_option: expected (member, parent name, rust identifier, extension annotation, default annotation)");
+        return;
+    }
+    let cs = |t: &str| Val::Ctor("CharacterString".into(), vec![Val::Ctor("CharacterString".into(), vec![], [("ty".to_string(), Val::ctor(t)), ("constraints".to_string(), Val::List(vec![]))].into_iter().collect())], BTreeMap::new());
+    let plain = |k: &str| Val::Ctor(k.into(), vec![Val::Opaque("payload".into())], BTreeMap::new());
+    let kinds: Vec<(&str, Val)> = vec![
+        ("INTEGER", plain("Integer")), ("BOOLEAN", plain("Boolean")), ("OCTET STRING", plain("OctetString")), ("BIT STRING", plain("BitString")),
+        ("UTF8String", cs("UTF8String")), ("PrintableString", cs("PrintableString")), ("IA5String", cs("IA5String")), ("BMPString", cs("BMPString")), ("GeneralString", cs("GeneralString")),
+        ("a type reference", plain("ElsewhereDeclaredType")), ("SEQUENCE OF", plain("SequenceOf")), ("an inline SEQUENCE", plain("Sequence")), ("an inline ENUMERATED", plain("Enumerated")), ("NULL", Val::ctor("Null")),
+    ];
+    let want = match item { "extension" => "<EXT>", "tag" => "<TAG>", _ => "<DEFAULT>" };
+    for (label, ty) in kinds {
+        ctx.oblige(rule, &format!("{}:{}", item, label), true);
+        let mut me = BTreeMap::new();
+        me.insert("name".to_string(), Val::Str("field".into()));
+        me.insert("ty".to_string(), ty);
+        me.insert("is_recursive".to_string(), Val::Bool(false));
+        me.insert("constraints".to_string(), Val::List(vec![]));
+        me.insert("tag".to_string(), Val::some(Val::Opaque("tag".into())));
+        let mut env = Env::new();
+        env.insert("self".into(), Val::ctor("Rasn"));
+        env.insert(params[0].clone(), Val::Ctor("SequenceOrSetMember".into(), vec![], me));
+        env.insert(params[1].clone(), Val::Str("Parent".into()));
+        env.insert(params[2].clone(), Val::Str("field".into()));
+        env.insert(params[3].clone(), Val::Sym("<EXT>".into()));
+        env.insert(params[4].clone(), Val::some(Val::Sym("<DEFAULT>".into())));
+        match ev.eval_fn_body(&f.block, &mut env) {
+            Ok(Val::Ctor(ok, p, _)) if ok == "Ok" => {
+                let ann = match p.first() { Some(Val::Ctor(_, _, fl)) => fl.get("annotations").map(|v| match v { Val::Sym(s) | Val::Str(s) => s.clone(), o => o.show() }).unwrap_or_default(), _ => String::new() };
+                if !ann.split_whitespace().any(|a| a == want) {
+                    ctx.violate(rule, &format!("member-loses-{}", item), &f.file, f.line,
+                        &format!("format_member_or_option, component of type {}: the annotations handed to join_annotations are `{}` — the {} is not among them{}", label, ann, match item { "extension" => "extension marking passed in by the caller", "tag" => "component's tag", _ => "DEFAULT annotation passed in by the caller" },
+                            if item == "extension" { ": an extension addition of that type is declared as a root component" } else { "" }));
+                }
+            }
+            Ok(o) => ctx.fail_closed(rule, &format!("[{}]: {}", label, o.show().chars().take(120).collect::<String>())),
+            Err(e) => ctx.fail_closed(rule, &format!("[{}]: {}", label, e)),
+        }
+    }
+}
+
 pub fn run(m: &Model, ctx: &mut Ctx) {
     ctx.explanation = "C05.index: the four lexer->IR conversions (From impls taking (root, Option<ExtensionMarker>, Option<additions>)) are evaluated abstractly on their syntax tree over opaque element symbols \
 for every combination of 0..2 root components, marker present/absent and 0..2 additions (the code is parametric in the elements, so small lists are exhaustive): the stored index must be Some(number of root components) exactly when the marker is present, \
@@ -38,6 +110,7 @@ Not decided: that nom delivers the components it saw (run-time parser semantics)
     // "the components after the marker, and only those": COMPONENTS OF inserts root components ahead of the marker, so the
     // including type's first-extension index moves with them (the analysis lives with C09.splice)
     borrow(ctx, "C09", "C09.splice", "C05.splice", &mut |sub| crate::rules::c09::run(m, sub));
+    member_annotations(m, ctx, "C05.member", "extension");
     let consts = const_resolver(m);
     let ev = Evaluator { consts: &consts, call_hook: &crate::eval::no_hook, inline: None };
 
